@@ -48,6 +48,12 @@ BORROW = [("C01", lambda n: n.startswith("glue.rect")), ("C20", lambda n: n.star
 
 def jobs(tier):
     js = region_jobs(tier)
+    # (helper opv) bail paths of pixman_op and validate under injected allocation / union failures
+    try:
+        import C05_opv
+        js += [j for j in C05_opv.jobs(tier) if "fail" in j.name]
+    except ImportError:
+        pass
     for mod, flt in BORROW:
         try:
             m = importlib.import_module(mod)
@@ -65,7 +71,8 @@ META = {
     "trusted_base": ["harness/common/vh_alloc.h: allocation calls beyond the 32nd of one API call never fail (stated bound)"],
     "assumptions": ["only the functions listed under functions_under_contract are checked under allocation failure; the quantifier "
                     "'every allocation site reached by every API entry point' is covered for those only",
-                    "pixman_op / validate bail paths (region operations on multi-rectangle operands) are NOT covered: symbolic execution of pixman_op does not finish"],
-    "not_covered": ["pixman_op and validate allocation-failure bail paths", 
+                    "pixman_op / validate bail paths: covered by the opv jobs (*.allocfail, *.fail) for operands of <= 3 rectangles / <= 5 boxes with y coordinates "
+                    "enumerated as order types (bounded)"],
+    "not_covered": [
                     "store_scanline_generic_float"],
 }
